@@ -627,6 +627,10 @@ def run_shard(shard) -> ShardResult:
             chain = chain_at(per, depth, idx)
             res.cases += 1
             entries = ENTRIES if (idx % 7 == 0 or size < 20000) else (ENTRIES[:2] + (ENTRIES[6 + idx % 5],))
+            if size > 2_000_000:
+                # the largest space (three-template chains over three block names): every chain through the synchronous
+                # entry point, every 50th also through one of the others in turn
+                entries = (ENTRIES[0], ENTRIES[1 + (idx // 50) % (len(ENTRIES) - 1)]) if idx % 50 == 0 else ENTRIES[:1]
             for sig, case, exp, obs in check_chain(chain, names, res, entries):
                 res.violation(sig, {"part": "chain", "tier": tier, **case}, exp, obs, repro=_repro(case["sources"], case["entry"]))
             res.states.add(h64([depth, names, idx]))
